@@ -205,6 +205,9 @@ func runC04(c *core.Check) {
 	}
 	c.Decide(rtAdds, "loop-shape", "xgo.intRangeIter.Next", 0, "val += step", "the runtime iterator no longer advances by val += step")
 
+	// ---------- (3b) bounds are evaluated once
+	rangeBoundsOnce(c, prog)
+
 	// ---------- (4) direction
 	rtCases := 0
 	if en := core.FindFuncDecl(rk, "IntRange.Gop_Enum"); en != nil {
@@ -311,3 +314,79 @@ func constName(info *types.Info, e ast.Expr) string {
 }
 
 var _ = packages.NeedName
+
+// rangeBoundsOnce (shared by C02 and C04): the runtime range object receives start, end and step once; the loop lowering
+// must likewise evaluate end and step once — only a literal may be used in the loop header as it is, everything else has
+// to be copied into _gop_end / _gop_step in the init statement (an identifier can be assigned to in the loop body).
+func rangeBoundsOnce(c *core.Check, prog *core.Prog) {
+	pk := prog.Pkg("./cl")
+	if pk == nil {
+		return
+	}
+	tfs := prog.FuncDecl("./cl", "toForStmt")
+	if tfs == nil {
+		c.Bad("anchor", "cl.toForStmt", 0, "not found")
+		return
+	}
+	info := pk.TypesInfo
+	for _, fld := range []string{"Last", "Expr3"} {
+		var direct []string
+		found := false
+		ast.Inspect(tfs.Body, func(n ast.Node) bool {
+			ts, ok := n.(*ast.TypeSwitchStmt)
+			if !ok {
+				return true
+			}
+			subj := typeSwitchSubject(ts)
+			if subj == nil || nows(core.ExprStr(subj)) != "re."+fld {
+				return true
+			}
+			found = true
+			for _, s := range ts.Body.List {
+				cc := s.(*ast.CaseClause)
+				// an arm that uses the expression as it is: assigns re.<fld> to cond/post
+				usesDirect := false
+				for _, st := range cc.Body {
+					if as, ok := st.(*ast.AssignStmt); ok && len(as.Rhs) == 1 && nows(core.ExprStr(as.Rhs[0])) == "re."+fld {
+						usesDirect = true
+					}
+				}
+				if usesDirect {
+					for _, e := range cc.List {
+						if nt := namedOf(info.TypeOf(e)); nt != nil {
+							direct = append(direct, nt.Obj().Name())
+						}
+					}
+					if cc.List == nil {
+						direct = append(direct, "default")
+					}
+				}
+			}
+			return true
+		})
+		key := "toForStmt:" + fld
+		if !found {
+			c.Bad("bounds-once", key, tfs.Pos(), "toForStmt no longer decides by a type switch over re."+fld+" whether the bound needs a temporary: every form other than a literal must be evaluated once, before the loop")
+			continue
+		}
+		bad := ""
+		for _, d := range direct {
+			if d != "BasicLit" {
+				bad = d
+			}
+		}
+		c.Decide(bad == "", "bounds-once", key, tfs.Pos(), "only a literal is used in the loop header as it is", "toForStmt uses a "+bad+" range bound (re."+fld+") directly in the loop header, so it is re-evaluated on every iteration: when the body changes it (`for i <- 0:n { n-- }`, `for i <- :len(a) { a <- i }`) the loop enumerates another sequence than the same range in a comprehension, which evaluates its bounds once")
+	}
+}
+
+func stmtOrExprStr(s ast.Stmt) string {
+	switch x := s.(type) {
+	case *ast.ExprStmt:
+		return core.ExprStr(x.X)
+	case *ast.AssignStmt:
+		if len(x.Rhs) == 1 {
+			return core.ExprStr(x.Rhs[0])
+		}
+	}
+	return ""
+}
